@@ -2103,6 +2103,67 @@ M('C05', 'sigv4-copy-plan-shares-subpackets', PK, "        spkt._sigtype = self.
   "        plan = (('_sigtype', None), ('_pubalg', None), ('_halg', None),\n                ('subpackets', None), ('hash2', copy.copy), ('signature', copy.copy))\n        for name, duplicate in plan:\n            value = getattr(self, name)\n            if duplicate is not None:\n                value = duplicate(value)\n            setattr(spkt, name, value)\n", 'C05.3')
 T('C05', 'twin-parse-loop-stop-form', FL, "        plen = len(packet)\n        while plen - len(packet) < hl:\n            sp = SignatureSP(packet)\n            self['h_' + sp.__class__.__name__] = sp\n        self._hashed_raw = hashed_raw\n",
   "        stop = len(packet) - hl\n        while len(packet) > stop:\n            sp = SignatureSP(packet)\n            self['h_' + type(sp).__name__] = sp\n        self._hashed_raw = hashed_raw\n")
+# --- held-out refactorings / property-breaking edits written by independent sub-agents that did not see the rules (kept as
+#     unified diffs under selftest/patches/); every hunk becomes one exact-text edit, widened until it matches exactly once
+def _patch_edits(name, root='/repo'):
+    import os
+    import re as _re
+    here = os.path.dirname(os.path.abspath(__file__)) if '__file__' in globals() else 'selftest'
+    path = os.path.join(here, 'patches', name)
+    if not os.path.exists(path):
+        path = os.path.join('selftest', 'patches', name)
+    edits, cur, lines = [], None, open(path).read().split('\n')
+    i = 0
+    while i < len(lines):
+        l = lines[i]
+        if l.startswith('+++ '):
+            cur = l[4:].split('\t')[0].strip()
+            cur = cur[2:] if cur[:2] in ('a/', 'b/') else cur
+        m = _re.match(r'^@@ -(\d+)(?:,(\d+))? \+(\d+)(?:,(\d+))? @@', l)
+        if m and cur:
+            start = int(m.group(1))
+            old, new = [], []
+            i += 1
+            while i < len(lines) and not lines[i].startswith(('@@', 'diff ', '--- ')):
+                h = lines[i]
+                if h.startswith('\\'):
+                    pass
+                elif h.startswith('-'):
+                    old.append(h[1:])
+                elif h.startswith('+'):
+                    new.append(h[1:])
+                elif h.startswith(' ') or h == '':
+                    if h == '' and i == len(lines) - 1:
+                        break
+                    old.append(h[1:])
+                    new.append(h[1:])
+                i += 1
+            src = open(os.path.join(root, cur)).read().split('\n')
+            lo, hi = start - 1, start - 1 + len(old)
+            assert src[lo:hi] == old, (name, cur, start)
+            pre, post = [], []
+            text = '\n'.join(src)
+            while text.count('\n'.join(pre + old + post)) != 1:
+                if lo > 0:
+                    lo -= 1
+                    pre.insert(0, src[lo])
+                if hi < len(src):
+                    post.append(src[hi])
+                    hi += 1
+            edits.append((cur, '\n'.join(pre + old + post), '\n'.join(pre + new + post)))
+            continue
+        i += 1
+    return edits
+
+
+def _patch_case(kind, prop, cid, name, rule=None):
+    ed = _patch_edits(name)
+    if kind == 'T':
+        T(prop, cid, ed[0][0], ed[0][1], ed[0][2], more=ed[1:])
+    else:
+        M(prop, cid, ed[0][0], ed[0][1], ed[0][2], rule, more=ed[1:])
+
+
 
 # =============================================================================================== C07
 M('C07', 'pubkey-iterates-mpis', PK, "        for pm in self.keymaterial.__pubfields__:\n            setattr(pk.keymaterial, pm, copy.copy(getattr(self.keymaterial, pm)))", "        for pm in self.keymaterial.__mpis__:\n            setattr(pk.keymaterial, pm, copy.copy(getattr(self.keymaterial, pm)))", 'C07.1')
@@ -2122,7 +2183,151 @@ M('C07', 'export-adds-keymaterial', PGP, "        # subkeys\n        for sk in s
 M('C07', 'or-accepts-other-kind', PGP, "        elif isinstance(other, PGPKey) and not other.is_primary and other.is_public == self.is_public:", "        elif isinstance(other, PGPKey) and not other.is_primary:", 'C07.2')
 T('C07', 'twin-pubkey-local', PK, "        pk.created = self.created\n        pk.pkalg = self.pkalg\n\n        # copy over MPIs", "        created = self.created\n        pk.created = created\n        pk.pkalg = self.pkalg\n\n        # copy over MPIs")
 T('C07', 'twin-is-public-parens', PGP, "        return isinstance(self._key, Public) and not isinstance(self._key, Private)\n\n    @property\n    def is_unlocked(self):", "        return (not isinstance(self._key, Private)) and isinstance(self._key, Public)\n\n    @property\n    def is_unlocked(self):")
+# --- hardening: rules rewritten over interpreter paths / truth tables (twins T must stay silent, mutants M must be reported)
+M('C07', 'call-check-errors-swallowed', DE, "                self.check_attributes(key)\n\n", "                try:\n                    self.check_attributes(key)\n                except PGPError as e:\n                    logging.warning(str(e))\n\n", 'C07.5')
+T('C07', 'twin-attrs-guard-clause', DE, "            if getattr(key, attr) != expected:\n                raise PGPError(\"Expected: {attr:s} == {eval:s}. Got: {got:s}\"\n                               \"\".format(attr=attr, eval=str(expected), got=str(getattr(key, attr))))", "            actual = getattr(key, attr)\n            if actual == expected:\n                continue\n            raise PGPError(\"Expected: {attr:s} == {eval:s}. Got: {got:s}\"\n                           \"\".format(attr=attr, eval=str(expected), got=str(actual)))")
+T('C07', 'twin-attrs-by-name', DE, "        for attr, expected in self.conditions.items():\n", "        for attr in self.conditions:\n            expected = self.conditions[attr]\n")
+M('C07', 'attrs-only-is-unlocked', DE, "            if getattr(key, attr) != expected:", "            if attr == 'is_unlocked' and getattr(key, attr) != expected:", 'C07.5')
+M('C07', 'attrs-mismatch-logged', DE, "                raise PGPError(\"Expected: {attr:s} == {eval:s}. Got: {got:s}\"\n                               \"\".format(", "                logging.warning(\"Expected: {attr:s} == {eval:s}. Got: {got:s}\"\n                               \"\".format(", 'C07.5')
+M('C07', 'attrs-first-condition-only', DE, "                               \"\".format(attr=attr, eval=str(expected), got=str(getattr(key, attr))))\n", "                               \"\".format(attr=attr, eval=str(expected), got=str(getattr(key, attr))))\n            break\n", 'C07.5')
+M('C07', 'attrs-compares-with-self', DE, "            if getattr(key, attr) != expected:", "            if getattr(self, attr, expected) != expected:", 'C07.5')
+T('C07', 'twin-attrs-mismatch-list', DE, "        for attr, expected in self.conditions.items():\n            if getattr(key, attr) != expected:\n                raise PGPError(", "        failed = [(attr, expected) for attr, expected in self.conditions.items() if getattr(key, attr) != expected]\n        if failed:\n            attr, expected = failed[0]\n            if True:\n                raise PGPError(")
+T('C07', 'twin-attrs-any', DE, "        for attr, expected in self.conditions.items():\n            if getattr(key, attr) != expected:\n                raise PGPError(\"Expected: {attr:s} == {eval:s}. Got: {got:s}\"\n                               \"\".format(attr=attr, eval=str(expected), got=str(getattr(key, attr))))", "        if any(getattr(key, attr) != expected for attr, expected in self.conditions.items()):\n            raise PGPError(\"Key does not meet the required conditions: {0!r}\".format(self.conditions))")
+M('C07', 'attrs-any-equal', DE, "        for attr, expected in self.conditions.items():\n            if getattr(key, attr) != expected:\n                raise PGPError(\"Expected: {attr:s} == {eval:s}. Got: {got:s}\"\n                               \"\".format(attr=attr, eval=str(expected), got=str(getattr(key, attr))))", "        if not any(getattr(key, attr) == expected for attr, expected in self.conditions.items()):\n            raise PGPError(\"Key does not meet the required conditions: {0!r}\".format(self.conditions))", 'C07.5')
+T('C07', 'twin-decorator-const', PGP, "    @KeyAction(KeyFlags.Sign, is_unlocked=True, is_public=False)", "    @KeyAction(KeyFlags.Sign, **_PRIVATE_OPERATION)", more=[(PGP, "class PGPKey(Armorable, ParentRef, PGPObject):\n", "_PRIVATE_OPERATION = {'is_unlocked': True, 'is_public': False}\n\n\nclass PGPKey(Armorable, ParentRef, PGPObject):\n")])
+_C07_BUILD = """            # create a new key shell
+            pub = PGPKey()
+            pub.ascii_headers = self.ascii_headers.copy()
 
+            # get the public half of the primary key
+            pub._key = self._key.pubkey()
+
+            # get the public half of each subkey
+            for skid, subkey in self.subkeys.items():
+                pub |= subkey.pubkey
+
+            # copy user ids and user attributes
+            for uid in self._uids:
+                pub |= copy.copy(uid)
+
+            # copy signatures that weren't copied with uids
+            for sig in self._signatures:
+                if sig.parent is None:
+                    pub |= copy.copy(sig)
+"""
+_C07_BUILD_TWIN = """            # create a new key shell
+            twin = PGPKey()
+            twin.ascii_headers = self.ascii_headers.copy()
+
+            # get the public half of the primary key
+            twin._key = self._key.pubkey()
+
+            # get the public half of each subkey
+            for skid, subkey in self.subkeys.items():
+                twin |= subkey.pubkey
+
+            # copy user ids and user attributes
+            for uid in self._uids:
+                twin |= copy.copy(uid)
+
+            # copy signatures that weren't copied with uids
+            for sig in self._signatures:
+                if sig.parent is None:
+                    twin |= copy.copy(sig)
+"""
+_C07_HELPER = """    def _public_shell(self):
+        twin = PGPKey()
+        twin.ascii_headers = self.ascii_headers.copy()
+        twin._key = self._key.pubkey()
+        for subkey in self.subkeys.values():
+            twin |= subkey.pubkey
+        for uid in self._uids:
+            twin |= copy.copy(uid)
+        for sig in self._signatures:
+            if sig.parent is None:
+                twin |= copy.copy(sig)
+        return twin
+
+    @pubkey.setter
+"""
+T('C07', 'twin-pubkey-helper', PGP, _C07_BUILD, "            pub = self._public_shell()\n", more=[(PGP, "    @pubkey.setter\n", _C07_HELPER)])
+T('C07', 'twin-pubkey-rename-values', PGP, _C07_BUILD, _C07_BUILD_TWIN.replace('for skid, subkey in self.subkeys.items()', 'for subkey in self._children.values()').replace('twin |= copy.copy(uid)', 'twin = twin | copy.copy(uid)') + "            pub = twin\n")
+T('C07', 'twin-pubkey-return-local', PGP, "                pub._parent = weakref.ref(self.parent)\n\n        return self._sibling()", "                pub._parent = weakref.ref(self.parent)\n\n            return pub\n\n        return self._sibling()")
+M('C07', 'twin-drops-signatures', PGP, "            for sig in self._signatures:\n                if sig.parent is None:\n                    pub |= copy.copy(sig)\n", "", 'C07.2')
+M('C07', 'twin-attaches-subkey-copy', PGP, "                pub |= subkey.pubkey\n", "                pub |= copy.copy(subkey)\n", 'C07.2')
+M('C07', 'twin-returns-self', PGP, "                pub._parent = weakref.ref(self.parent)\n\n        return self._sibling()", "                pub._parent = weakref.ref(self.parent)\n\n        return self._sibling() or self", 'C07.2')
+_C07_ARM = "        elif isinstance(other, PGPKey) and not other.is_primary and other.is_public == self.is_public:"
+T('C07', 'twin-or-order', PGP, _C07_ARM, "        elif isinstance(other, PGPKey) and self.is_public == other.is_public and not other.is_primary:")
+T('C07', 'twin-or-not-ne', PGP, _C07_ARM, "        elif isinstance(other, PGPKey) and not (other.is_primary or other.is_public != self.is_public):")
+T('C07', 'twin-or-nested', PGP, _C07_ARM + "\n            other._parent = self\n            self._children[other.fingerprint.keyid] = other\n",
+  "        elif isinstance(other, PGPKey) and not other.is_primary:\n            if other.is_public != self.is_public:\n                raise TypeError(\"unsupported operand type(s) for |: '{:s}' and '{:s}'\"\n                                \"\".format(self.__class__.__name__, other.__class__.__name__))\n            other._parent = self\n            self._children[other.fingerprint.keyid] = other\n")
+T('C07', 'twin-or-mirror-keyword', PGP, "                sib.__or__(copy.copy(other), True)", "                sib.__or__(copy.copy(other), from_sib=True)")
+M('C07', 'or-accepts-primary', PGP, _C07_ARM, "        elif isinstance(other, PGPKey) and other.is_public == self.is_public:", 'C07.2')
+M('C07', 'or-kind-check-skipped-for-sibling', PGP, _C07_ARM, "        elif isinstance(other, PGPKey) and not other.is_primary and (from_sib or other.is_public == self.is_public):", 'C07.2')
+M('C07', 'or-opposite-kind', PGP, _C07_ARM, "        elif isinstance(other, PGPKey) and not other.is_primary and other.is_public != self.is_public:", 'C07.2')
+M('C07', 'or-mirror-shares-object', PGP, "                sib.__or__(copy.copy(other), True)", "                sib.__or__(other, True)", 'C07.2')
+# C07.4 selector
+T('C07', 'twin-selector-inline', PK, "        k = (self.public, self.pkalg)\n        km = _c.get(k, None)\n\n        self.keymaterial = (km or (OpaquePubKey if self.public else OpaquePrivKey))()", "        km = _c.get((self.public, self.pkalg))\n        if km is None:\n            km = OpaquePubKey if self.public else OpaquePrivKey\n\n        self.keymaterial = km()")
+T('C07', 'twin-selector-ifs', PK, "        self.keymaterial = (km or (OpaquePubKey if self.public else OpaquePrivKey))()", "        if km:\n            self.keymaterial = km()\n        elif self.public:\n            self.keymaterial = OpaquePubKey()\n        else:\n            self.keymaterial = OpaquePrivKey()")
+M('C07', 'selector-always-public', PK, "        k = (self.public, self.pkalg)\n        km = _c.get(k, None)", "        k = (True, self.pkalg)\n        km = _c.get(k, None)", 'C07.4')
+M('C07', 'selector-fallback-swapped', PK, "(OpaquePubKey if self.public else OpaquePrivKey)", "(OpaquePrivKey if self.public else OpaquePubKey)", 'C07.4')
+M('C07', 'selector-fallback-private-only', PK, "(OpaquePubKey if self.public else OpaquePrivKey)", "OpaquePrivKey", 'C07.4')
+# C07.6 magic
+_C07_MAGIC = "        return '{:s} KEY BLOCK'.format('PUBLIC' if (isinstance(self._key, Public) and not isinstance(self._key, Private)) else\n                                       'PRIVATE' if isinstance(self._key, Private) else '')"
+T('C07', 'twin-magic-percent', PGP, _C07_MAGIC, "        if isinstance(self._key, Private):\n            kind = 'PRIVATE'\n        elif isinstance(self._key, Public):\n            kind = 'PUBLIC'\n        else:\n            kind = ''\n        return '%s KEY BLOCK' % kind")
+T('C07', 'twin-magic-concat', PGP, _C07_MAGIC, "        kind = 'PUBLIC' if (isinstance(self._key, Public) and not isinstance(self._key, Private)) else 'PRIVATE' if isinstance(self._key, Private) else ''\n        return kind + ' KEY BLOCK'")
+M('C07', 'magic-public-for-any-public-class', PGP, _C07_MAGIC, "        return '{:s} KEY BLOCK'.format('PUBLIC' if isinstance(self._key, Public) else\n                                       'PRIVATE' if isinstance(self._key, Private) else '')", 'C07.6')
+M('C07', 'export-uid-signatures-unfiltered-private', PGP, "        # subkeys\n        for sk in self._children.values():\n            _bytes += sk.__bytearray__()\n", "        # subkeys\n        for sk in self._children.values():\n            _bytes += sk._key.keymaterial.__bytearray__()\n", 'C07.6')
+T('C07', 'twin-export-subkeys-prop', PGP, "        # subkeys\n        for sk in self._children.values():\n            _bytes += sk.__bytearray__()\n", "        # subkeys\n        for subkey in self.subkeys.values():\n            _bytes.extend(subkey.__bytearray__())\n")
+
+_C07_TBL = '        _c = {\n            # True means public\n            (True, PubKeyAlgorithm.RSAEncryptOrSign): RSAPub,\n            (True, PubKeyAlgorithm.RSAEncrypt): RSAPub,\n            (True, PubKeyAlgorithm.RSASign): RSAPub,\n            (True, PubKeyAlgorithm.DSA): DSAPub,\n            (True, PubKeyAlgorithm.ElGamal): ElGPub,\n            (True, PubKeyAlgorithm.FormerlyElGamalEncryptOrSign): ElGPub,\n            (True, PubKeyAlgorithm.ECDSA): ECDSAPub,\n            (True, PubKeyAlgorithm.ECDH): ECDHPub,\n            (True, PubKeyAlgorithm.EdDSA): EdDSAPub,\n            # False means private\n            (False, PubKeyAlgorithm.RSAEncryptOrSign): RSAPriv,\n            (False, PubKeyAlgorithm.RSAEncrypt): RSAPriv,\n            (False, PubKeyAlgorithm.RSASign): RSAPriv,\n            (False, PubKeyAlgorithm.DSA): DSAPriv,\n            (False, PubKeyAlgorithm.ElGamal): ElGPriv,\n            (False, PubKeyAlgorithm.FormerlyElGamalEncryptOrSign): ElGPriv,\n            (False, PubKeyAlgorithm.ECDSA): ECDSAPriv,\n            (False, PubKeyAlgorithm.ECDH): ECDHPriv,\n            (False, PubKeyAlgorithm.EdDSA): EdDSAPriv,\n        }\n\n'
+_C07_TBL_HOISTED = '    _KEYMATERIAL = {\n        # True means public\n        (True, PubKeyAlgorithm.RSAEncryptOrSign): RSAPub,\n        (True, PubKeyAlgorithm.RSAEncrypt): RSAPub,\n        (True, PubKeyAlgorithm.RSASign): RSAPub,\n        (True, PubKeyAlgorithm.DSA): DSAPub,\n        (True, PubKeyAlgorithm.ElGamal): ElGPub,\n        (True, PubKeyAlgorithm.FormerlyElGamalEncryptOrSign): ElGPub,\n        (True, PubKeyAlgorithm.ECDSA): ECDSAPub,\n        (True, PubKeyAlgorithm.ECDH): ECDHPub,\n        (True, PubKeyAlgorithm.EdDSA): EdDSAPub,\n        # False means private\n        (False, PubKeyAlgorithm.RSAEncryptOrSign): RSAPriv,\n        (False, PubKeyAlgorithm.RSAEncrypt): RSAPriv,\n        (False, PubKeyAlgorithm.RSASign): RSAPriv,\n        (False, PubKeyAlgorithm.DSA): DSAPriv,\n        (False, PubKeyAlgorithm.ElGamal): ElGPriv,\n        (False, PubKeyAlgorithm.FormerlyElGamalEncryptOrSign): ElGPriv,\n        (False, PubKeyAlgorithm.ECDSA): ECDSAPriv,\n        (False, PubKeyAlgorithm.ECDH): ECDHPriv,\n        (False, PubKeyAlgorithm.EdDSA): EdDSAPriv,\n    }\n\n'
+T('C07', 'twin-table-class-constant', PK, _C07_TBL + "        k = (self.public, self.pkalg)\n        km = _c.get(k, None)", "        k = (self.public, self.pkalg)\n        km = self._KEYMATERIAL.get(k, None)",
+  more=[(PK, "    @pkalg.register(int)\n    @pkalg.register(PubKeyAlgorithm)\n    def pkalg_int(self, val):\n        self._pkalg = PubKeyAlgorithm(val)\n\n        k = (self.public", _C07_TBL_HOISTED + "    @pkalg.register(int)\n    @pkalg.register(PubKeyAlgorithm)\n    def pkalg_int(self, val):\n        self._pkalg = PubKeyAlgorithm(val)\n\n        k = (self.public")])
+
+_patch_case('T', 'C07', 'heldout-a-t01', 'G6-a-t01.diff')
+_patch_case('T', 'C07', 'heldout-a-t02', 'G6-a-t02.diff')
+_patch_case('T', 'C07', 'heldout-a-t03', 'G6-a-t03.diff')
+_patch_case('T', 'C07', 'heldout-a-t04', 'G6-a-t04.diff')
+_patch_case('T', 'C07', 'heldout-a-t12', 'G6-a-t12.diff')
+_patch_case('T', 'C07', 'heldout-a-t14', 'G6-a-t14.diff')
+_patch_case('T', 'C07', 'heldout-b-t01', 'G6-b-t01.diff')
+_patch_case('T', 'C07', 'heldout-b-t02', 'G6-b-t02.diff')
+_patch_case('T', 'C07', 'heldout-b-t03', 'G6-b-t03.diff')
+_patch_case('T', 'C07', 'heldout-b-t04', 'G6-b-t04.diff')
+_patch_case('T', 'C07', 'heldout-b-t05', 'G6-b-t05.diff')
+_patch_case('T', 'C07', 'heldout-b-t06', 'G6-b-t06.diff')
+_patch_case('T', 'C07', 'heldout-b-t07', 'G6-b-t07.diff')
+_patch_case('T', 'C07', 'heldout-b-t08', 'G6-b-t08.diff')
+_patch_case('T', 'C07', 'heldout-b-t09', 'G6-b-t09.diff')
+_patch_case('T', 'C07', 'heldout-b-t10', 'G6-b-t10.diff')
+_patch_case('T', 'C07', 'heldout-b-t11', 'G6-b-t11.diff')
+_patch_case('T', 'C07', 'heldout-b-t12', 'G6-b-t12.diff')
+_patch_case('M', 'C07', 'heldout-m06', 'G6-m06.diff', 'C07.5')
+_patch_case('M', 'C07', 'heldout-m11', 'G6-m11.diff', 'C07.2')
+_patch_case('M', 'C07', 'heldout-m12', 'G6-m12.diff', 'C07.2')
+_patch_case('M', 'C07', 'heldout-m13', 'G6-m13.diff', 'C07.2')
+_patch_case('M', 'C07', 'heldout-m14', 'G6-m14.diff', 'C07.2')
+_patch_case('M', 'C07', 'heldout-m15', 'G6-m15.diff', 'C07.2')
+_patch_case('M', 'C07', 'heldout-m18', 'G6-m18.diff', 'C07.4')
+_patch_case('M', 'C07', 'heldout-m19', 'G6-m19.diff', 'C07.2')
+_patch_case('T', 'C07', 'heldout-c-t02', 'G6-c-t02.diff')
+_patch_case('T', 'C07', 'heldout-c-t04', 'G6-c-t04.diff')
+_patch_case('T', 'C07', 'heldout-c-t08', 'G6-c-t08.diff')
+_patch_case('T', 'C07', 'heldout-c-t09', 'G6-c-t09.diff')
+_patch_case('T', 'C07', 'heldout-c-t11', 'G6-c-t11.diff')
+# --- C07.7 copy fidelity (seeded C07-w2mut2 / w2mut3 families) and further precondition mutants
+M('C07', 'copy-userattribute-through-signature-container', PK, "class UserAttribute(Packet):", "class UserAttribute(Packet):\n    def __copy__(self):\n        ua = UserAttribute()\n        ua.header = copy.copy(self.header)\n        ua.subpackets = copy.copy(self.subpackets)\n        return ua\n", 'C07.7')
+M('C07', 'copy-subpackets-reencoded', FL, "        sp = SubPackets()\n        sp._hashed_sp = self._hashed_sp.copy()\n        sp._unhashed_sp = self._unhashed_sp.copy()\n", "        sp = self.__class__()\n        for (name, _), val in self._hashed_sp.items():\n            sp['h_' + name] = val\n        for (name, _), val in self._unhashed_sp.items():\n            sp[name] = val\n", 'C07.7')
+M('C07', 'copy-keypacket-as-public-class', PK, "    def __copy__(self):\n        pk = self.__class__()\n        pk.header = copy.copy(self.header)\n        pk.created = self.created", "    def __copy__(self):\n        pk = PubKeyV4()\n        pk.header = copy.copy(self.header)\n        pk.created = self.created", 'C07.7')
+M('C07', 'copy-signature-drops-subpackets', PK, "        spkt.subpackets = copy.copy(self.subpackets)\n", "", 'C07.7')
+T('C07', 'twin-copy-subpackets-own-class', FL, "        sp = SubPackets()\n        sp._hashed_sp = self._hashed_sp.copy()", "        sp = self.__class__()\n        sp._hashed_sp = self._hashed_sp.copy()")
+T('C07', 'twin-copy-userattribute-own-class', PK, "class UserAttribute(Packet):", "class UserAttribute(Packet):\n    def __copy__(self):\n        ua = self.__class__()\n        ua.header = copy.copy(self.header)\n        ua.subpackets = copy.copy(self.subpackets)\n        return ua\n", more=[(FL, "        sp = SubPackets()\n        sp._hashed_sp = self._hashed_sp.copy()", "        sp = type(self)()\n        sp._hashed_sp = self._hashed_sp.copy()")])
+M('C07', 'attrs-enforced-only-when-true', DE, "            if getattr(key, attr) != expected:", "            if expected and getattr(key, attr) != expected:", 'C07.5')
+M('C07', 'attrs-truthiness-compared', DE, "            if getattr(key, attr) != expected:", "            if expected and not getattr(key, attr):", 'C07.5')
+M('C07', 'call-check-only-with-identity', DE, "                self.check_attributes(key)\n", "                if kwargs.get('user') is not None:\n                    self.check_attributes(key)\n", 'C07.5')
+M('C07', 'call-check-only-when-subkey-selected', DE, "                self.check_attributes(key)\n", "                if _key is not key:\n                    self.check_attributes(key)\n", 'C07.5')
+M('C07', 'call-unguarded-fast-path', DE, "    def __call__(self, action):\n", "    def __call__(self, action):\n        if not self.conditions:\n            return action\n\n", 'C07.5')
 # =============================================================================================== C16
 M('C16', 'sign-drops-unlocked', PGP, "    @KeyAction(KeyFlags.Sign, is_unlocked=True, is_public=False)", "    @KeyAction(KeyFlags.Sign, is_public=False)", 'C16.1')
 M('C16', 'encrypt-private', PGP, "    @KeyAction(KeyFlags.EncryptCommunications, KeyFlags.EncryptStorage, is_public=True)", "    @KeyAction(KeyFlags.EncryptCommunications, KeyFlags.EncryptStorage, is_public=False)", 'C16.1')
@@ -2141,6 +2346,190 @@ M('C16', 'unlocked-when-protected', PGP, "        if not self.is_protected:\n   
 M('C16', 'keyflags-unhashed', PGP, "            return next(iter(self._signature.subpackets['h_KeyFlags'])).flags", "            return next(iter(self._signature.subpackets['KeyFlags'])).flags", 'C16.5')
 T('C16', 'twin-selfsig-slice', PGP, "            for sig in reversed(self._signatures):\n                if sig.signer_fingerprint:", "            for sig in reversed(list(self._signatures)):\n                if sig.signer_fingerprint:")
 T('C16', 'twin-subkey-flags-index', PGP, "        return next(reversed(list(self.self_signatures))).key_flags", "        return list(self.self_signatures)[-1].key_flags")
+# --- hardening: rules rewritten over interpreter paths / scenarios / truth tables
+_C16_LOOP = "            for _key in _preiter(key, key.subkeys.values()):\n                if self.flags & set(_key._get_key_flags(user)):\n                    break\n"
+T('C16', 'twin-usage-chain', DE, "            for _key in _preiter(key, key.subkeys.values()):", "            for _key in itertools.chain((key,), key.subkeys.values()):", more=[(DE, "import functools\n", "import functools\nimport itertools\n")])
+T('C16', 'twin-usage-list-concat', DE, "            for _key in _preiter(key, key.subkeys.values()):", "            for _key in [key] + list(key.subkeys.values()):")
+T('C16', 'twin-usage-candidates-list', DE, _C16_LOOP, "            candidates = [key]\n            candidates.extend(key.subkeys.values())\n            for candidate in candidates:\n                _key = candidate\n                effective = set(candidate._get_key_flags(user))\n                if effective & self.flags:\n                    break\n")
+T('C16', 'twin-usage-intersection-call', DE, "                if self.flags & set(_key._get_key_flags(user)):", "                if self.flags.intersection(_key._get_key_flags(user)):")
+T('C16', 'twin-usage-isdisjoint', DE, "                if self.flags & set(_key._get_key_flags(user)):", "                if not self.flags.isdisjoint(_key._get_key_flags(user)):")
+T('C16', 'twin-usage-len-test', DE, "                if self.flags & set(_key._get_key_flags(user)):", "                if len(self.flags & set(_key._get_key_flags(user))) > 0:")
+T('C16', 'twin-usage-flags-truth', DE, "        if len(self.flags):\n", "        if self.flags:\n")
+T('C16', 'twin-usage-noflags-first', DE, "        if len(self.flags):\n" + _C16_LOOP, "        if not self.flags:\n            _key = key\n\n        else:\n" + _C16_LOOP.replace('            ', '            ', 1), more=[(DE, "                    logging.warning(warning)\n\n        else:\n            _key = key\n", "                    logging.warning(warning)\n")])
+T('C16', 'twin-usage-warn-first', DE, "                if key._require_usage_flags:\n                    raise PGPError(warning)\n                else:\n                    logging.warning(warning)", "                if not key._require_usage_flags:\n                    logging.warning(warning)\n                else:\n                    raise PGPError(warning)")
+T('C16', 'twin-usage-rename', DE, "            for _key in _preiter(key, key.subkeys.values()):\n                if self.flags & set(_key._get_key_flags(user)):\n                    break\n", "            for component in _preiter(key, key.subkeys.values()):\n                _key = component\n                if self.flags & set(component._get_key_flags(user)):\n                    break\n")
+M('C16', 'usage-subkeys-before-key', DE, "            yield first\n            for item in iterable:\n                yield item\n", "            for item in iterable:\n                yield item\n            yield first\n", 'C16.3')
+M('C16', 'usage-flags-of-default-identity', DE, "                if self.flags & set(_key._get_key_flags(user)):", "                if self.flags & set(_key._get_key_flags()):", 'C16.3')
+M('C16', 'usage-yields-addressed-key', DE, "        yield _key\n", "        yield key\n", 'C16.3')
+M('C16', 'usage-break-when-unenforced', DE, "                if self.flags & set(_key._get_key_flags(user)):", "                if self.flags & set(_key._get_key_flags(user)) or not key._require_usage_flags:", 'C16.3')
+M('C16', 'usage-single-flag-skips-scan', DE, "        if len(self.flags):\n", "        if len(self.flags) > 1:\n", 'C16.3')
+M('C16', 'usage-superset-test', DE, "                if self.flags & set(_key._get_key_flags(user)):", "                if self.flags >= set(_key._get_key_flags(user)):", 'C16.3')
+M('C16', 'usage-unenforced-only-when-subkeys', DE, "                if key._require_usage_flags:\n                    raise PGPError(warning)", "                if key._require_usage_flags and not key.subkeys:\n                    raise PGPError(warning)", 'C16.3')
+T('C16', 'twin-call-user-temp', DE, "            with self.usage(key, kwargs.get('user', None)) as _key:\n                self.check_attributes(key)\n", "            user = kwargs.get('user')\n            self.check_attributes(key)\n            with self.usage(key, user) as component:\n                _key = component\n")
+T('C16', 'twin-call-result-temp', DE, "                return action(_key, *args, **kwargs)", "                result = action(_key, *args, **kwargs)\n            return result")
+T('C16', 'twin-call-wrapper-name', DE, "        @functools.wraps(action)\n        def _action(key, *args, **kwargs):", "        def guarded(key, *args, **kwargs):", more=[(DE, "        return _action\n", "        return functools.wraps(action)(guarded)\n")])
+T('C16', 'twin-call-demorgan', DE, "            if len(key._uids) == 0 and key.is_primary and action is not key.certify.__wrapped__:", "            if not (len(key._uids) > 0 or not key.is_primary or action is key.certify.__wrapped__):")
+T('C16', 'twin-call-nested-ifs', DE, "            if len(key._uids) == 0 and key.is_primary and action is not key.certify.__wrapped__:\n                raise PGPError(\"Key is not complete - please add a User ID!\")\n", "            if not key._uids:\n                if key.is_primary:\n                    if action is not key.certify.__wrapped__:\n                        raise PGPError(\"Key is not complete - please add a User ID!\")\n")
+M('C16', 'call-no-key-check-dropped', DE, "            if key._key is None:\n                raise PGPError(\"No key!\")\n", "", 'C16.2')
+M('C16', 'call-exemption-any-key', DE, "            if len(key._uids) == 0 and key.is_primary and action is not key.certify.__wrapped__:", "            if len(key._uids) == 0 and key.is_primary and action is key.certify.__wrapped__:", 'C16.2')
+M('C16', 'call-exemption-or', DE, "            if len(key._uids) == 0 and key.is_primary and action is not key.certify.__wrapped__:", "            if len(key._uids) == 0 and (not key.is_primary or action is not key.certify.__wrapped__):", 'C16.2')
+M('C16', 'call-uid-check-force-kw', DE, "            if len(key._uids) == 0 and key.is_primary and action is not key.certify.__wrapped__:", "            if len(key._uids) == 0 and key.is_primary and action is not key.certify.__wrapped__ and not kwargs.get('force'):", 'C16.2')
+M('C16', 'call-usage-ignores-identity', DE, "            with self.usage(key, kwargs.get('user', None)) as _key:", "            with self.usage(key, None) as _key:", 'C16.2')
+M('C16', 'call-checks-selected-component', DE, "                self.check_attributes(key)\n", "                self.check_attributes(_key)\n", 'C16.2')
+M('C16', 'call-no-key-returns-none', DE, "            if key._key is None:\n                raise PGPError(\"No key!\")\n", "            if key._key is None:\n                return None\n", 'C16.2')
+T('C16', 'twin-usage-candidates-method', DE, "            for _key in _preiter(key, key.subkeys.values()):", "            for _key in self._candidates(key):", more=[(DE, "    def check_attributes(self, key):\n", "    @staticmethod\n    def _candidates(key):\n        yield key\n        for sub in key.subkeys.values():\n            yield sub\n\n    def check_attributes(self, key):\n")])
+T('C16', 'twin-usage-children', DE, "            for _key in _preiter(key, key.subkeys.values()):", "            for _key in _preiter(key, key._children.values()):")
+T('C16', 'twin-decorator-dict-splat', PGP, "    @KeyAction(KeyFlags.Sign, is_unlocked=True, is_public=False)", "    @KeyAction(KeyFlags.Sign, **{'is_unlocked': True, 'is_public': False})")
+T('C16', 'twin-decorator-order', PGP, "    @KeyAction(KeyFlags.Sign, is_unlocked=True, is_public=False)", "    @KeyAction(KeyFlags.Sign, is_public=False, is_unlocked=True)")
+T('C16', 'twin-decorator-const', PGP, "    @KeyAction(KeyFlags.Sign, is_unlocked=True, is_public=False)", "    @KeyAction(KeyFlags.Sign, **_PRIVATE_OPERATION)", more=[(PGP, "class PGPKey(Armorable, ParentRef, PGPObject):\n", "_PRIVATE_OPERATION = {'is_unlocked': True, 'is_public': False}\n\n\nclass PGPKey(Armorable, ParentRef, PGPObject):\n")])
+M('C16', 'decorator-const-public', PGP, "    @KeyAction(KeyFlags.Sign, is_unlocked=True, is_public=False)", "    @KeyAction(KeyFlags.Sign, **_PRIVATE_OPERATION)", 'C16.1', more=[(PGP, "class PGPKey(Armorable, ParentRef, PGPObject):\n", "_PRIVATE_OPERATION = {'is_unlocked': True}\n\n\nclass PGPKey(Armorable, ParentRef, PGPObject):\n")])
+M('C16', 'init-drops-conditions', DE, "        self.conditions = conditions\n", "        self.conditions = {}\n", 'C16.1')
+M('C16', 'init-first-flag-only', DE, "        self.flags = set(usage)\n", "        self.flags = set(usage[:1])\n", 'C16.1')
+T('C16', 'twin-init-frozenset', DE, "        self.flags = set(usage)\n", "        self.flags = frozenset(usage)\n")
+T('C16', 'twin-init-dict-copy', DE, "        self.conditions = conditions\n", "        self.conditions = dict(conditions)\n")
+_C16_SUB = "        return next(reversed(list(self.self_signatures))).key_flags"
+T('C16', 'twin-subkey-flags-slice-rev', PGP, _C16_SUB, "        newest_first = list(self.self_signatures)[::-1]\n        return next(iter(newest_first)).key_flags")
+T('C16', 'twin-subkey-flags-pop', PGP, _C16_SUB, "        return list(self.self_signatures).pop().key_flags")
+T('C16', 'twin-subkey-flags-max', PGP, _C16_SUB, "        return max(self.self_signatures).key_flags")
+T('C16', 'twin-subkey-flags-sorted-rev', PGP, _C16_SUB, "        return sorted(self.self_signatures, reverse=True)[0].key_flags")
+M('C16', 'subkey-flags-first-of-list', PGP, _C16_SUB, "        return list(self.self_signatures)[0].key_flags", 'C16.5')
+M('C16', 'subkey-flags-double-reverse', PGP, _C16_SUB, "        return next(reversed(list(reversed(list(self.self_signatures))))).key_flags", 'C16.5')
+M('C16', 'subkey-flags-min', PGP, _C16_SUB, "        return min(self.self_signatures).key_flags", 'C16.5')
+_C16_PRIM = """        if self.is_primary:
+            if user is not None:
+                user = self.get_uid(user)
+
+            elif len(self._uids) == 0:
+                return {KeyFlags.Certify}
+
+            else:
+                user = next(iter(self.userids))
+
+            # RFC 4880 says that primary keys *must* be capable of certification
+            return {KeyFlags.Certify} | (user.selfsig.key_flags if user.selfsig else set())
+
+        # the most recent self-signature is the one in effect
+"""
+T('C16', 'twin-key-flags-subkey-first', PGP, _C16_PRIM + _C16_SUB, """        if not self.is_primary:
+            # the most recent self-signature is the one in effect
+            return next(reversed(list(self.self_signatures))).key_flags
+
+        if user is not None:
+            uid = self.get_uid(user)
+
+        elif len(self._uids) == 0:
+            return {KeyFlags.Certify}
+
+        else:
+            uid = next(iter(self.userids))
+
+        if uid.selfsig:
+            granted = uid.selfsig.key_flags
+
+        else:
+            granted = set()
+
+        return {KeyFlags.Certify} | granted""")
+T('C16', 'twin-key-flags-union-call', PGP, "            return {KeyFlags.Certify} | (user.selfsig.key_flags if user.selfsig else set())", "            selfsig = user.selfsig\n            flags = {KeyFlags.Certify}\n            if selfsig:\n                flags = flags | selfsig.key_flags\n            return flags")
+M('C16', 'primary-flags-ignore-chosen-identity', PGP, "            if user is not None:\n                user = self.get_uid(user)\n\n            elif len(self._uids) == 0:", "            if user is not None and len(self._uids) == 1:\n                user = self.get_uid(user)\n\n            elif len(self._uids) == 0:", 'C16.5')
+M('C16', 'primary-flags-certify-only', PGP, "            return {KeyFlags.Certify} | (user.selfsig.key_flags if user.selfsig else set())", "            return {KeyFlags.Certify}", 'C16.5')
+M('C16', 'primary-flags-all-when-no-selfsig', PGP, "            return {KeyFlags.Certify} | (user.selfsig.key_flags if user.selfsig else set())", "            return {KeyFlags.Certify} | (user.selfsig.key_flags if user.selfsig else set(KeyFlags))", 'C16.5')
+# selfsig
+_C16_SS = "            for sig in reversed(self._signatures):\n                if sig.signer_fingerprint:"
+T('C16', 'twin-selfsig-slice-rev', PGP, _C16_SS, "            for candidate in list(self._signatures)[::-1]:\n                sig = candidate\n                if sig.signer_fingerprint:")
+T('C16', 'twin-selfsig-issuer-temp', PGP, "                if sig.signer_fingerprint:\n                    if self.parent.fingerprint == sig.signer_fingerprint:\n                        return sig\n                elif sig.signer:\n                    if self.parent.fingerprint == sig.signer:\n                        return sig", "                owner = self.parent.fingerprint\n                if sig.signer_fingerprint:\n                    if sig.signer_fingerprint == owner:\n                        return sig\n                elif sig.signer and owner == sig.signer:\n                    return sig")
+M('C16', 'selfsig-sorted-ascending', PGP, _C16_SS, "            for sig in sorted(self._signatures):\n                if sig.signer_fingerprint:", 'C16.5')
+M('C16', 'selfsig-any-issuer', PGP, "                    if self.parent.fingerprint == sig.signer_fingerprint:\n                        return sig\n                elif", "                    if sig.signer_fingerprint:\n                        return sig\n                elif", 'C16.5')
+M('C16', 'selfsig-issuer-ne', PGP, "                    if self.parent.fingerprint == sig.signer:\n                        return sig", "                    if self.parent.fingerprint != sig.signer:\n                        return sig", 'C16.5')
+# self_signatures
+_C16_FIL = "        for sig in iter(sig for sig in self._signatures\n                        if all([sig.type == keytype, sig.signer == keyid, not sig.is_expired])):\n            yield sig\n\n    @property\n    def signers(self):\n        \"\"\"A ``set`` of key ids of keys that were used to sign this key\"\"\""
+_C16_TAIL = "\n\n    @property\n    def signers(self):\n        \"\"\"A ``set`` of key ids of keys that were used to sign this key\"\"\""
+T('C16', 'twin-self-signatures-and', PGP, _C16_FIL, "        for s in (s for s in self._signatures if s.type == keytype and keyid == s.signer and not s.is_expired):\n            yield s" + _C16_TAIL)
+T('C16', 'twin-self-signatures-yield-from', PGP, _C16_FIL, "        yield from (s for s in self._signatures if all((s.type == keytype, s.signer == keyid, not s.is_expired)))" + _C16_TAIL)
+M('C16', 'self-signatures-any-issuer', PGP, _C16_FIL, "        for sig in iter(sig for sig in self._signatures\n                        if all([sig.type == keytype, not sig.is_expired])):\n            yield sig" + _C16_TAIL, 'C16.5')
+M('C16', 'self-signatures-reversed', PGP, _C16_FIL, "        for sig in iter(sig for sig in reversed(self._signatures)\n                        if all([sig.type == keytype, sig.signer == keyid, not sig.is_expired])):\n            yield sig" + _C16_TAIL, 'C16.5')
+M('C16', 'self-signatures-expired-kept', PGP, _C16_FIL, "        for sig in iter(sig for sig in self._signatures\n                        if all([sig.type == keytype, sig.signer == keyid])):\n            yield sig" + _C16_TAIL, 'C16.5')
+# key_flags
+_C16_KF = "            return next(iter(self._signature.subpackets['h_KeyFlags'])).flags"
+T('C16', 'twin-keyflags-temp', PGP, _C16_KF, "            hashed = self._signature.subpackets['h_KeyFlags']\n            return next(iter(hashed)).flags")
+# premise
+T('C16', 'twin-lt-flipped', PGP, "    def __lt__(self, other):\n        return self.created < other.created", "    def __lt__(self, other):\n        return other.created > self.created")
+M('C16', 'lt-by-type', PGP, "    def __lt__(self, other):\n        return self.created < other.created", "    def __lt__(self, other):\n        return self.type < other.type", 'C16.5')
+T('C16', 'twin-insort-insert', TY, "        i = bisect.bisect_left(self, item)\n        self.rotate(- i)\n        self.appendleft(item)\n        self.rotate(i)", "        position = bisect.bisect_left(self, item)\n        self.insert(position, item)")
+M('C16', 'insort-appends', TY, "        i = bisect.bisect_left(self, item)\n        self.rotate(- i)\n        self.appendleft(item)\n        self.rotate(i)", "        self.append(item)", 'C16.5')
+M('C16', 'insort-rotate-back-missing', TY, "        self.appendleft(item)\n        self.rotate(i)", "        self.appendleft(item)", 'C16.5')
+# predicates
+T('C16', 'twin-s2k-bool-tuple', FL, "        return self.usage in [254, 255]", "        return self.usage in self._PROTECTED", more=[(FL, "    def __bool__(self):\n        return", "    _PROTECTED = (254, 255)\n\n    def __bool__(self):\n        return")])
+T('C16', 'twin-s2k-bool-ge', FL, "        return self.usage in [254, 255]", "        return self.usage >= 254")
+T('C16', 'twin-s2k-bool-or', FL, "        return self.usage in [254, 255]", "        return self.usage == 254 or self.usage == 255")
+M('C16', 's2k-bool-only-254', FL, "        return self.usage in [254, 255]", "        return self.usage == 254", 'C16.2')
+M('C16', 's2k-bool-nonzero', FL, "        return self.usage in [254, 255]", "        return self.usage != 0", 'C16.2')
+T('C16', 'twin-protected-if', PK, "        return bool(self.keymaterial.s2k)", "        if self.keymaterial.s2k:\n            return True\n        return False")
+M('C16', 'protected-inverted', PK, "        return bool(self.keymaterial.s2k)", "        return not self.keymaterial.s2k", 'C16.2')
+T('C16', 'twin-unlocked-all', PK, "            return 0 not in list(self.keymaterial)", "            return all(i != 0 for i in self.keymaterial)")
+M('C16', 'unlocked-always', PK, "            return 0 not in list(self.keymaterial)", "            return True", 'C16.2')
+M('C16', 'unlocked-inverted', PK, "            return 0 not in list(self.keymaterial)", "            return 0 in list(self.keymaterial)", 'C16.2')
+# delegation
+_C16_DEL = "            sks = set(self.subkeys)\n            mis = set(message.encrypters)\n            if sks & mis:\n                skid = list(sks & mis)[0]\n                return self.subkeys[skid].decrypt(message)\n"
+T('C16', 'twin-delegate-once', PGP, _C16_DEL, "            addressed = set(self.subkeys) & set(message.encrypters)\n            if addressed:\n                return self.subkeys[next(iter(addressed))].decrypt(message)\n")
+T('C16', 'twin-delegate-loop', PGP, _C16_DEL, "            for skid in self.subkeys:\n                if skid in message.encrypters:\n                    return self.subkeys[skid].decrypt(message)\n")
+T('C16', 'twin-delegate-items', PGP, _C16_DEL, "            for skid, subkey in self.subkeys.items():\n                if skid in message.encrypters:\n                    return subkey.decrypt(message)\n")
+M('C16', 'delegate-first-subkey', PGP, _C16_DEL, "            sks = list(self.subkeys)\n            if sks:\n                return self.subkeys[sks[0]].decrypt(message)\n", 'C16.6')
+M('C16', 'delegate-unaddressed', PGP, _C16_DEL, "            for skid in self.subkeys:\n                if skid not in message.encrypters:\n                    return self.subkeys[skid].decrypt(message)\n", 'C16.6')
+T('C16', 'twin-encrypters-setcomp', PGP, "        return set(m.encrypter for m in self._sessionkeys if isinstance(m, PKESessionKey))", "        return {pk.encrypter for pk in self._sessionkeys if isinstance(pk, PKESessionKey)}")
+T('C16', 'twin-self-signatures-plain-loop', PGP, _C16_FIL, "        for sig in self._signatures:\n            if sig.type == keytype and sig.signer == keyid and not sig.is_expired:\n                yield sig" + _C16_TAIL)
+T('C16', 'twin-self-signatures-loop-continue', PGP, _C16_FIL, "        for sig in self._signatures:\n            if sig.type != keytype or sig.is_expired:\n                continue\n            if sig.signer == keyid:\n                yield sig" + _C16_TAIL)
+M('C16', 'self-signatures-loop-expired-kept', PGP, _C16_FIL, "        for sig in self._signatures:\n            if sig.type == keytype and sig.signer == keyid:\n                yield sig" + _C16_TAIL, 'C16.5')
+M('C16', 'self-signatures-loop-or', PGP, _C16_FIL, "        for sig in self._signatures:\n            if sig.type == keytype and (sig.signer == keyid or not sig.is_expired):\n                yield sig" + _C16_TAIL, 'C16.5')
+T('C16', 'twin-usage-frozen-required', DE, "                if self.flags & set(_key._get_key_flags(user)):", "                if frozenset(self.flags) & frozenset(_key._get_key_flags(user)):")
+T('C16', 'twin-key-flags-first-uid-index', PGP, "                user = next(iter(self.userids))", "                user = self.userids[0]")
+_patch_case('T', 'C16', 'heldout-a-t01', 'G6-a-t01.diff')
+_patch_case('T', 'C16', 'heldout-a-t02', 'G6-a-t02.diff')
+_patch_case('T', 'C16', 'heldout-a-t03', 'G6-a-t03.diff')
+_patch_case('T', 'C16', 'heldout-a-t04', 'G6-a-t04.diff')
+_patch_case('T', 'C16', 'heldout-a-t05', 'G6-a-t05.diff')
+_patch_case('T', 'C16', 'heldout-a-t06', 'G6-a-t06.diff')
+_patch_case('T', 'C16', 'heldout-a-t07', 'G6-a-t07.diff')
+_patch_case('T', 'C16', 'heldout-a-t09', 'G6-a-t09.diff')
+_patch_case('T', 'C16', 'heldout-a-t10', 'G6-a-t10.diff')
+_patch_case('T', 'C16', 'heldout-a-t11', 'G6-a-t11.diff')
+_patch_case('T', 'C16', 'heldout-a-t12', 'G6-a-t12.diff')
+_patch_case('T', 'C16', 'heldout-a-t13', 'G6-a-t13.diff')
+_patch_case('T', 'C16', 'heldout-a-t14', 'G6-a-t14.diff')
+_patch_case('M', 'C16', 'heldout-m01', 'G6-m01.diff', 'C16.5')
+_patch_case('M', 'C16', 'heldout-m02', 'G6-m02.diff', 'C16.5')
+_patch_case('M', 'C16', 'heldout-m03', 'G6-m03.diff', 'C16.5')
+_patch_case('M', 'C16', 'heldout-m04', 'G6-m04.diff', 'C16.3')
+_patch_case('M', 'C16', 'heldout-m05', 'G6-m05.diff', 'C16.3')
+_patch_case('M', 'C16', 'heldout-m06', 'G6-m06.diff', 'C16.2')
+_patch_case('M', 'C16', 'heldout-m07', 'G6-m07.diff', 'C16.1')
+_patch_case('M', 'C16', 'heldout-m08', 'G6-m08.diff', 'C16.2')
+_patch_case('M', 'C16', 'heldout-m09', 'G6-m09.diff', 'C16.2')
+_patch_case('M', 'C16', 'heldout-m10', 'G6-m10.diff', 'C16.6')
+_patch_case('T', 'C16', 'heldout-a-t08', 'G6-a-t08.diff')
+_patch_case('T', 'C16', 'heldout-c-t02', 'G6-c-t02.diff')
+_patch_case('T', 'C16', 'heldout-c-t04', 'G6-c-t04.diff')
+_patch_case('T', 'C16', 'heldout-c-t08', 'G6-c-t08.diff')
+_patch_case('T', 'C16', 'heldout-c-t09', 'G6-c-t09.diff')
+_patch_case('T', 'C16', 'heldout-c-t11', 'G6-c-t11.diff')
+# --- C16.6 session-key rules (own, semantic versions of the shared family functions)
+_C16_SEL = "        pkesk = next(pk for pk in message._sessionkeys if isinstance(pk, PKESessionKey)\n                     and pk.pkalg == self.key_algorithm and pk.encrypter == self.fingerprint.keyid)"
+M('C16', 'pkesk-any-of-algorithm-or-id', PGP, _C16_SEL, "        pkesk = next(pk for pk in message._sessionkeys if isinstance(pk, PKESessionKey)\n                     and (pk.pkalg == self.key_algorithm or pk.encrypter == self.fingerprint.keyid))", 'C16.6')
+M('C16', 'pkesk-no-class-filter', PGP, _C16_SEL, "        pkesk = next(pk for pk in message._sessionkeys\n                     if pk.pkalg == self.key_algorithm and pk.encrypter == self.fingerprint.keyid)", 'C16.6')
+M('C16', 'pkesk-other-recipient', PGP, _C16_SEL, "        pkesk = next(pk for pk in message._sessionkeys if isinstance(pk, PKESessionKey)\n                     and pk.pkalg == self.key_algorithm and pk.encrypter != self.fingerprint.keyid)", 'C16.6')
+T('C16', 'twin-pkesk-own-id-local', PGP, _C16_SEL, "        own_id = self.fingerprint.keyid\n        mine = (pk for pk in message._sessionkeys\n                if isinstance(pk, PKESessionKey) and own_id == pk.encrypter and self.key_algorithm == pk.pkalg)\n        pkesk = next(mine)")
+T('C16', 'twin-pkesk-all-filter', PGP, _C16_SEL, "        pkesk = next(pk for pk in message._sessionkeys if isinstance(pk, PKESessionKey)\n                     if all([pk.pkalg == self.key_algorithm, pk.encrypter == self.fingerprint.keyid]))")
+M('C16', 'encrypters-loop-unguarded', PGP, "        return set(m.encrypter for m in self._sessionkeys if isinstance(m, PKESessionKey))", "        keyids = set()\n        for m in self._sessionkeys:\n            keyids.add(m.encrypter)\n        return keyids", 'C16.6')
+T('C16', 'twin-encrypters-loop-guarded', PGP, "        return set(m.encrypter for m in self._sessionkeys if isinstance(m, PKESessionKey))", "        keyids = set()\n        for m in self._sessionkeys:\n            if not isinstance(m, PKESessionKey):\n                continue\n            keyids.add(m.encrypter)\n        return keyids")
+T('C16', 'twin-decrypt-addressed-first', PGP, "        if self.fingerprint.keyid not in message.encrypters:\n            sks = set(self.subkeys)\n            mis = set(message.encrypters)\n            if sks & mis:\n                skid = list(sks & mis)[0]\n                return self.subkeys[skid].decrypt(message)\n\n            raise PGPError(\"Cannot decrypt the provided message with this key\")\n\n" + _C16_SEL + "\n        alg, key = pkesk.decrypt_sk(self._key)\n\n        # now that we have the symmetric cipher used and the key, we can decrypt the actual message\n        decmsg = PGPMessage()\n        decmsg.parse(message.message.decrypt(key, alg))\n\n        return decmsg",
+  "        keyid = self.fingerprint.keyid\n        if keyid in message.encrypters:\n            pkesk = next(pk for pk in message._sessionkeys if isinstance(pk, PKESessionKey)\n                         and pk.pkalg == self.key_algorithm and pk.encrypter == keyid)\n            alg, key = pkesk.decrypt_sk(self._key)\n            decmsg = PGPMessage()\n            decmsg.parse(message.message.decrypt(key, alg))\n            return decmsg\n\n        addressed = set(self.subkeys) & set(message.encrypters)\n        if addressed:\n            return self.subkeys[list(addressed)[0]].decrypt(message)\n\n        raise PGPError(\"Cannot decrypt the provided message with this key\")")
+M('C16', 'call-refusals-only-for-flagged-actions', DE, "            if len(key._uids) == 0 and key.is_primary and action is not key.certify.__wrapped__:", "            if self.flags and len(key._uids) == 0 and key.is_primary and action is not key.certify.__wrapped__:", 'C16.2')
+M('C16', 'call-no-key-check-after-usage', DE, "            if key._key is None:\n                raise PGPError(\"No key!\")\n", "", 'C16.2', more=[(DE, "                self.check_attributes(key)\n\n", "                self.check_attributes(key)\n                if _key._key is None:\n                    raise PGPError(\"No key!\")\n\n")])
+M('C16', 'usage-scan-stops-at-first-subkey', DE, "                if self.flags & set(_key._get_key_flags(user)):\n                    break\n", "                if self.flags & set(_key._get_key_flags(user)) or _key is not key:\n                    break\n", 'C16.3')
+M('C16', 'usage-refusal-only-for-primary', DE, "                if key._require_usage_flags:\n                    raise PGPError(warning)", "                if key._require_usage_flags and key.is_primary:\n                    raise PGPError(warning)", 'C16.3')
+M('C16', 'call-unguarded-fast-path', DE, "    def __call__(self, action):\n", "    def __call__(self, action):\n        if not self.flags and not self.conditions:\n            return action\n\n", 'C16.2')
+M('C16', 'unlocked-public-short-circuit-lost', PGP, "        if not self.is_protected:\n            return True\n\n        return self._key.unlocked", "        return True", 'C16.2')
+T('C16', 'twin-delegate-loop-skip', PGP, _C16_DEL, "            for skid in self.subkeys:\n                if skid not in message.encrypters:\n                    continue\n                return self.subkeys[skid].decrypt(message)\n")
 
 # =============================================================================================== C18 (additions)
 M('C18', 'pubkey-kdf-recomputed', PK, "            pk.keymaterial.kdf = copy.copy(self.keymaterial.kdf)", "            pk.keymaterial.kdf.halg = self.keymaterial.oid.kdf_halg\n            pk.keymaterial.kdf.encalg = self.keymaterial.oid.kek_alg", 'C18.6')
